@@ -366,7 +366,7 @@ def tainted_constants(fn, var_key, start_blk):
                     p = op_place(rv['a'])
                     if p is not None:
                         src.append(place_key(p))
-                if rv['k'] == 'ref':
+                if rv['k'] in ('ref', 'discr'):
                     src.append(place_key(rv['p']))
                 for pk in src:
                     base_ok = pk in taint or ((pk[0], ()) in taint and all(e == ('deref', ) for e in pk[1]))
